@@ -5,7 +5,7 @@ import random
 from common import *
 
 PROP = "C12"
-THEOREMS = []
+THEOREMS = [tuple(x) for x in json.load(open(os.path.join(VERIF, "lib", "pins", PROP + ".json")))]
 
 TOKENS = ["build", "rule", "pool", "default", "include", "subninja", "x", "command", "depth", " ", "\n", ":", "|", "@", "$", "=", "{",
           "}", "#", "é", "\0", "\r", "3", "."]
